@@ -258,7 +258,7 @@ func SimC04(c *CheckCtx, i int, r *Rng) error {
 		if renameCase {
 			// the destination cannot be renamed over: it is a mount point (EBUSY), on another device (EXDEV), immutable (EPERM)
 			kind = "os.rename"
-			faulty.Faults[0].Kind, faulty.Faults[0].Do = kind, "errno:"+Pick(r, []string{"EBUSY", "EXDEV", "EBUSY", "EPERM", "ETXTBSY"})
+			faulty.Faults[0].Kind, faulty.Faults[0].Do = kind, "errno:"+[]string{"EBUSY", "EXDEV", "EPERM", "EBUSY", "ETXTBSY"}[(i/4)%5] // (by turns: what a detection needs is enumerated, not drawn)
 		}
 		if kind == "os.rename" {
 			faulty.Faults[0].Path = tmp + " -> " + strings.TrimSuffix(tmp, ".tmp")
